@@ -4,5 +4,6 @@ CONSTANTS
   WB = 7
   Mutant = "recipwrap"
   Wide = FALSE
+  Only = {"scale", "translate"}
   LimbBits <- MCLimbBits
 INVARIANTS Sound DevOK Tight
